@@ -218,8 +218,14 @@ where
                 .enumerate()
             {
                 // Capture chunk + thread scratch by move
+                #[cfg(feature = "verif")]
+                let verif_tok: u64 = poulpy_hal::verif::spawn_prepare();
                 scope.spawn(move || {
+                    #[cfg(feature = "verif")]
+                    let _verif_guard = poulpy_hal::verif::thread_begin(verif_tok);
                     for (idx, out_i) in out_chunk.iter_mut().enumerate() {
+                        #[cfg(feature = "verif")]
+                        poulpy_hal::verif::yield_point(poulpy_hal::verif::SITE_BDD_ITEM, thread_idx * chunk_size + idx, thread_idx);
                         let (nodes, state_size) = circuit.get_circuit(thread_idx * chunk_size + idx);
 
                         if state_size == 0 {
@@ -229,7 +235,11 @@ where
                         }
                     }
                 });
+                #[cfg(feature = "verif")]
+                poulpy_hal::verif::after_spawn(verif_tok);
             }
+            #[cfg(feature = "verif")]
+            poulpy_hal::verif::join_begin();
         });
 
         for out_i in out.iter_mut().skip(circuit.output_size()) {
